@@ -41,6 +41,20 @@ CLAIMED = {
     note="Trusted: abstract domains. Functional correctness (negacyclic product) not decided by this check.",
     technique="abstract interpretation over monomorphic MIR (per-call-site interval/congruence/affine ranges through the unrolled transforms)",
     engine="driver-ai"),
+ "C07": dict(
+    category="proof",
+    text="Abstract interpretation of the six entry points that take a context on three length classes that partition usize ([0,255], {256}, [257,max]; message/keys arbitrary): over-long contexts are DEFINITELY rejected (Err / false) without entering sign_internal / verify_internal, every length 0..255 passes the guard, and at the mu absorb site the one-byte length item is the exact linear form 1*len(ctx)+0 in [0,255] (never a truncation, hence no aliasing).",
+    design_ref="DESIGN.md §4 C07",
+    note="Trusted: abstract interpreter soundness; SHAKE256 absorbs exactly what update() is given. Quick = ML-DSA-44, thorough = all sets.",
+    technique="abstract interpretation over monomorphic MIR with definite-result classes and exact linear forms of absorbed bytes",
+    engine="driver-ai"),
+ "C12": dict(
+    category="proof",
+    text="R1 who-may-call over every MIR body: only RngCore::try_fill_bytes is ever called on the generator (zero sites of fill_bytes/next_u32/next_u64; positive control fixture). R2 fault enumeration by request index under abstract interpretation: if request #i fails (buffer possibly partially written) the entry point returns definitely Err, does no key/signature work and hits no panic obligation; with a working generator it returns Ok. R3 exactly one 32-byte request covering the whole buffer, and all 32 RNG-tainted bytes are absorbed (first item of H(xi||k||l); middle item of H(K||rnd||mu)). R4 the OS-RNG wrappers only forward &mut of a zero-sized per-call OsRng.",
+    design_ref="DESIGN.md §4 C12",
+    note="Trusted: SHAKE256 depends on every absorbed byte; OsRng stateless; abstract interpreter soundness. Fault indices 0 and 1 are enumerated (no entry point issues more than two requests).",
+    technique="call-graph who-may-call rule + abstract interpretation with generator fault injection and byte-level taint of absorbed items",
+    engine="driver-ai"),
 }
 NA_REASON = "check not built yet in this round (static-analysis engine under construction); see DESIGN.md §8 build order"
 
@@ -71,7 +85,7 @@ man = {
  "engines": [
    {"name": "cfg-matrix", "path": "checks/c17.py", "serves_properties": ["C17"], "kind_free_text": "feature-configuration matrix: rustc lints + MIR fingerprints"},
    {"name": "driver-facts", "path": "driver/src/facts.rs", "serves_properties": ["C16", "C17"], "kind_free_text": "type/layout/drop-glue/call-graph facts"},
-   {"name": "driver-ai", "path": "driver/src/ai/", "serves_properties": ["C10", "C13", "C18"], "kind_free_text": "abstract interpreter over monomorphic MIR"},
+   {"name": "driver-ai", "path": "driver/src/ai/", "serves_properties": ["C07", "C10", "C12", "C13", "C18"], "kind_free_text": "abstract interpreter over monomorphic MIR"},
    {"name": "driver", "path": "driver/", "serves_properties": sorted(CLAIMED), "kind_free_text": "rustc_private driver over type-checked monomorphic MIR (facts, call graph, abstract interpretation)"},
  ],
  "checks": checks,
